@@ -125,8 +125,13 @@ def gen_requests(rng, n):
         host = rng.choice(hosts)
         if rng.chance(1, 12) and not re.match(r"\d", host):
             host = host.upper() if rng.chance(1, 2) else host.title()
+        if rng.chance(1, 14) and not re.match(r"\d", host):
+            host = host + "."                     # trailing dot: removed by the URL parser
         port = rng.choice([None, 80, 8080, 8081, 3128, 443]) if m != "CONNECT" else rng.choice([443, 8080, 3128])
-        reqs.append(H.req_token(m, rng.choice(H.SRCS), host, port))
+        xff = rng.choice(H.SRCS + ["10.1.2.3"]) if rng.chance(1, 8) else None     # must not influence src ACLs (follow_x_forwarded_for deny all)
+        if rng.chance(1, 25) and m in ("GET", "POST"):
+            m = m.lower()                         # relaxed_header_parser: read as the registered method
+        reqs.append(H.req_token(m, rng.choice(H.SRCS), host, port, xff))
     return reqs
 
 
@@ -343,7 +348,8 @@ def fixed_requests():
             R("GET", "127.46.0.1", "other.test", 8081), R("HEAD", "127.0.0.1", "multi.example.net", 3128), R("GET", "127.45.10.1", "dyn.example.net", 8080),
             R("PUT", "127.45.10.2", "nx.example.net", 80), R("GET", "127.45.10.1", "127.45.0.1", 8080), R("DELETE", "127.45.11.1", "127.45.5.5", 80),
             R("GET", "127.45.10.1", "127.45.6.6", 8081), R("CONNECT", "127.45.10.1", "a.example.com", 443), R("CONNECT", "127.45.10.2", "other.test", 8080),
-            R("PATCH", "127.45.10.1", "x-example.com", 80), R("FOO", "127.45.10.1", "A.Example.COM", 8080), R("OPTIONS", "127.45.10.1", "127.45.1.1", 80)]
+            R("PATCH", "127.45.10.1", "x-example.com", 80), R("FOO", "127.45.10.1", "A.Example.COM", 8080), R("OPTIONS", "127.45.10.1", "127.45.1.1", 80),
+            R("GET", "127.45.11.1", "a.example.com.", 8080, "127.45.10.1"), R("GET", "127.45.10.1", "b.example.com", 8080, "127.46.0.1")]
 
 
 def cases(rng, tier):
@@ -572,6 +578,7 @@ def has_prefix_value(conf):
 
 
 def ref_allowed(acls, rules, r):
+    r = dict(r, host=r["host"].rstrip("."))      # a trailing dot does not make another host
     for allow, lits in rules:
         if all(ref_acl_match(acls[n], r) != neg for neg, n in lits):
             return allow
@@ -637,8 +644,8 @@ def tag(line, impl, model):
     obs = impl.split(" ")
     kinds = sorted(set(o if o in ("fwd", "deny", "dnsfail") else "odd" for o in obs))
     conf = line.split(" ")[0]
-    types = sorted(set(re.findall(r"acl,[^,;]+,(src|dstdomain|dst|port|method)", conf)))
-    return "run types=%s obs=%s" % ("+".join(types) or "builtin", "+".join(kinds))
+    types = set(re.findall(r"acl,[^,;]+,(src|dstdomain|dst|port|method)", conf))
+    return "run acl-types=%d%s obs=%s" % (len(types), " neg" if ",!" in conf else "", "+".join(kinds))
 
 
 def classify(line, impl, why):
